@@ -138,6 +138,11 @@ impl<'a> Lexer<'a> {
             _ => unreachable!(),
         };
 
+        // decimal digits directly followed by an identifier character are an identifier (`0foo`, `2x4`)
+        if base == 10 && c.is_ascii_digit() && self.s.at(is_identifier_start) {
+            return self.identifier(start);
+        }
+
         let number = self.s.get(start..self.s.cursor());
         if interpret_number(number).is_none() {
             match base {
